@@ -117,6 +117,18 @@ proof fn lemma_shl_limbs_mod(s: Seq<Limb>, n: nat, sn: nat, rem: nat, shift: nat
 }
 
 
+/// the final step of a left shift: result limbs + spilled carry == surviving limbs shifted
+proof fn lemma_shl_finish(s: Seq<Limb>, res: int, c: int, n: nat, sn: nat, rem: nat, shift: nat)
+    requires sn < n, rem < 64, shift == 64 * sn + rem, 0 <= res < bp(n),
+        res + c * bp(n) == val(s, (n - sn) as nat) * bp(sn) * p2(rem)
+    ensures res == (val(s, n) * p2(shift)) % bp(n)
+{
+    let ww = bp(n);
+    assert(ww * c == c * ww) by (nonlinear_arith);
+    lemma_fundamental_div_mod_converse(val(s, (n - sn) as nat) * bp(sn) * p2(rem), ww, c, res);
+    lemma_shl_limbs_mod(s, n, sn, rem, shift);
+}
+
 /// dividing by 2^(64*sn + rem) drops the low sn limbs, then divides by 2^rem
 proof fn lemma_shr_limbs_div(v: int, lo: int, hi: int, sn: nat, rem: nat, shift: nat)
     requires v == lo + hi * bp(sn), 0 <= lo < bp(sn), hi >= 0, shift == 64 * sn + rem
@@ -1269,12 +1281,10 @@ pub const fn overflowing_shl_vartime(&self, shift: u32) -> (ret__: ConstCtOption
         assert((sn + m) as nat == LIMBS as nat);
         assert(val(p1, LIMBS as nat) == lowv * bp(sn));
         if rem == 0 {
-            lemma_shl_limbs_mod(self.limbs@, LIMBS as nat, sn, 0, shift as nat);
-            lemma_pow2_64();
             let x = val(p1, LIMBS as nat);
-            assert(lowv * bp(sn) * p2(0) == x) by (nonlinear_arith) requires x == lowv * bp(sn), p2(0) == 1;
-            lemma_val_bound(p1, LIMBS as nat);
-            lemma_small_mod(x as nat, bp(LIMBS as nat) as nat);
+            lemma_pow2_64(); lemma_val_bound(p1, LIMBS as nat);
+            assert(x + 0 * bp(LIMBS as nat) == lowv * bp(sn) * p2(0)) by (nonlinear_arith) requires x == lowv * bp(sn), p2(0) == 1;
+            lemma_shl_finish(self.limbs@, x, 0, LIMBS as nat, sn, 0, shift as nat);
         }
     }
 //@-
@@ -1322,11 +1332,8 @@ pub const fn overflowing_shl_vartime(&self, shift: u32) -> (ret__: ConstCtOption
 //@+
     proof {
         lemma_val_bound(limbs@, LIMBS as nat);
-        let ps = p2(rem as nat); let c = carry.0 as int; let ww = bp(LIMBS as nat);
-        let res = val(limbs@, LIMBS as nat);
-        assert(ww * c == c * ww) by (nonlinear_arith);
-        lemma_fundamental_div_mod_converse(lowv * bp(sn) * ps, ww, c, res);
-        lemma_shl_limbs_mod(self.limbs@, LIMBS as nat, sn, rem as nat, shift as nat);
+        assert(val(p1, LIMBS as nat) * p2(rem as nat) == lowv * bp(sn) * p2(rem as nat));
+        lemma_shl_finish(self.limbs@, val(limbs@, LIMBS as nat), carry.0 as int, LIMBS as nat, sn, rem as nat, shift as nat);
     }
 //@-
         ConstCtOption::some(Self { limbs })
